@@ -182,6 +182,22 @@ def step (line : String) : String :=
       | .err .other => "err"
       | .panic s => "panic " ++ s
     | _, _, _ => "bad-op"
+  -- decscan TYPE FIN EAGER CHUNKS: the same when the source is an io.ByteScanner (the Decoder reads it directly)
+  | ["decscan", ty, fin, eager, chunks] =>
+    let cs := if chunks = "." then some [] else (chunks.splitOn ";").mapM (fun c => if c = "-" then some [] else fromHex c)
+    match findSD ty, cs, (if fin = "eof" then some Fin.eof else if fin = "ioerr" then some Fin.ioerr else none) with
+    | some sd, some cs, some f =>
+      let src : Io.Src := ⟨cs, f, eager = "1"⟩
+      match Stk.decodeScanner sd src with
+      | .ok (v, _, x) =>
+        let left := match x.s with
+          | .src s' => s'.flat.length
+          | _ => 0
+        s!"ok {showVal v} pulled={src.flat.length - left}"
+      | .err .eof => "eof"
+      | .err .other => "err"
+      | .panic s => "panic " ++ s
+    | _, _, _ => "bad-op"
   -- dect TARGET FIN HEX: Decode into an arbitrary target kind (nil | nonptr | nilptr | ptrnonstruct | <struct type>)
   | ["dect", tgt, fin, hex] =>
     let t : Option Target := match tgt with
